@@ -260,6 +260,8 @@ impl UploadClient for LocalClient {
             Some(cas_object::CompressionScheme::None),
         )?;
         file.close()?;
+        #[cfg(xet_verif)]
+        utils::verif::point("local_put:closed");
 
         // attempt to set to readonly on unix.
         // On windows, this may pose issues if a xorb has recently
